@@ -14,10 +14,12 @@ import importlib.util
 import os
 import random
 import re
+import signal
 import subprocess
 
-from . import pyprims, pyobj, pybytes
+from . import pyprims, pyobj, pybytes, pyrand
 from .pyprims import Prim, PProgram, OPQ, PAIR, WORDS, MODULE
+from .pyrand import RProgram, FLOAT
 from .pyobj import NAT, INT, BOOL, BYTES, NONE, OBJ
 from .pyexpr import Untranslatable
 from .arith import write_if_changed, _lake_build
@@ -71,7 +73,8 @@ CTORS = [
       ('clientAesKeyId', 'self.client_aes_key_id', B), ('serverAesKeyId', 'self.server_aes_key_id', B)]),
 ]
 # methods: (class, method, argument types); each also gets a wrapper `<Class>_<m>_obj` taking the Lean structure of the object
-METHODS = [('AdnlChannel', 'encrypt', [B]), ('AdnlChannel', 'decrypt', [B, B]), ('Client', 'sign', [B]), ('Client', 'get_key_id', [])]
+METHODS = [('AdnlChannel', 'encrypt', [B]), ('AdnlChannel', 'decrypt', [B, B]), ('Client', 'sign', [B]), ('Client', 'get_key_id', []),
+           ('Client', 'get_aes_key_id', [])]
 
 SIGNATURE_PRIMS = [
     Prim('VerifyKey(__k__)', {'k': B}, '{k}', VKEY),
@@ -98,12 +101,29 @@ KEYS_MODULES = ['hashlib', 'hmac', 'math']
 KEYS_FUNCS = [('is_basic_seed', [B]), ('mnemonic_to_entropy', [WORDS, NONE]), ('mnemonic_is_valid', [WORDS]), ('mnemonic_to_seed', [WORDS, B, NONE]),
               ('mnemonic_to_private_key', [WORDS, NONE]), ('mnemonic_to_wallet_key', [WORDS, NONE])]
 
+# the two `while True` functions of keys.py (pyrand.py): the random source and the float arithmetic are parameters
+LOOP_PRIMS = KEYS_PRIMS + [
+    # functions of the same file that the 'keys' group regenerates in the same run (checked: translated there, same defaults)
+    Prim('is_basic_seed(__e__)', {'e': B}, 'is_basic_seed P {e}', BOOL, raises=True),
+    Prim('mnemonic_to_entropy(__w__)', {'w': WORDS}, 'mnemonic_to_entropy P {w} ()', B, raises=True),
+    # Python float arithmetic = the declared interface Py.FloatIf (PyRand.lean)
+    Prim('math.ceil(math.log2(__x__))', {'x': (NAT, INT)}, 'Fl.ceilLog2? {x}', INT, raises=True),
+    Prim('math.pow(__a__, __b__)', {'a': (NAT, INT), 'b': (NAT, INT)}, '(Fl.pow (Fl.ofInt {a}) (Fl.ofInt {b}))', FLOAT),
+    Prim('int(__x__)', {'x': FLOAT}, '(Fl.trunc {x})', INT),
+]
+LOOP_STREAM = 'os.urandom(__n__)'
+LOOP_GLOBALS = {'words': WORDS}
+LOOP_LOCALS = {'mnemonic_new': {'mnemo_arr': WORDS}}
+LOOP_PARAMS = {'get_secure_random_number': [INT, INT]}
+LOOP_FUNCS = [('get_secure_random_number', [INT, INT]), ('mnemonic_new', [NAT, NONE])]
+
 HEAD = ['/- GENERATED by harness/translate/adnlsrc.py (pyprims.py) from the current source of',
         '   ' + ', '.join(FILES.values()) + '; do not edit.',
         '   `P` = the cryptographic primitives (Model.Adnl.Prims: parameters), `none` = the Python code raises.  A key object is the',
         '   byte string its `.encode()` returns, a cipher object the pair (key, initial counter); `Py.bytesLt` = `<` on bytes,',
         '   `Py.aesCtrNew?` = the argument check of `AES.new(key, AES.MODE_CTR, initial_value=iv, nonce=b\'\')` (PyCrypto.lean). -/',
-        'import TonVerif.PyInt', 'import TonVerif.PyBytes', 'import TonVerif.PyObj', 'import TonVerif.PyCrypto', 'import TonVerif.Model.Adnl',
+        'import TonVerif.PyInt', 'import TonVerif.PyBytes', 'import TonVerif.PyObj', 'import TonVerif.PyCrypto', 'import TonVerif.PyRand',
+        'import TonVerif.Model.Adnl',
         'set_option linter.unusedVariables false', f'namespace {NS}', 'open TonVerif TonVerif.Model.Adnl', '']
 
 
@@ -254,7 +274,49 @@ def translate_keys():
     return list(prog.defs)
 
 
-GROUPS = {'ciphers': translate_ciphers, 'signature': translate_signature, 'keys': translate_keys}
+def _check_word_list(tree, name):
+    """`name` is bound exactly once, at module level, to a list literal of str constants; it is never rebound, mutated, deleted or
+    declared global: reading it as an (arbitrary) immutable list parameter is then sound"""
+    hits = [n for n in tree.body if isinstance(n, ast.Assign) and len(n.targets) == 1 and isinstance(n.targets[0], ast.Name) and n.targets[0].id == name]
+    if len(hits) != 1 or not isinstance(hits[0].value, ast.List) or not all(isinstance(x, ast.Constant) and isinstance(x.value, str) for x in hits[0].value.elts):
+        raise Untranslatable(f'{name} is not bound once to a list of string literals')
+    for n in ast.walk(tree):
+        if isinstance(n, ast.Name) and n.id == name and isinstance(n.ctx, (ast.Store, ast.Del)) and n is not hits[0].targets[0]:
+            raise Untranslatable(f'{name} is rebound')
+        if isinstance(n, (ast.Global, ast.Nonlocal)) and name in n.names:
+            raise Untranslatable(f'{name} is declared global')
+        if isinstance(n, (ast.arg,)) and n.arg == name or isinstance(n, (ast.FunctionDef, ast.ClassDef)) and n.name == name:
+            raise Untranslatable(f'{name} is shadowed')
+        if isinstance(n, ast.Attribute) and isinstance(n.value, ast.Name) and n.value.id == name and n.attr in pyobj.MUTATORS:
+            raise Untranslatable(f'{name}.{n.attr}')
+        if isinstance(n, ast.Subscript) and isinstance(n.value, ast.Name) and n.value.id == name and isinstance(n.ctx, (ast.Store, ast.Del)):
+            raise Untranslatable(f'{name}[..] is assigned')
+        if isinstance(n, ast.AugAssign) and isinstance(n.target, ast.Name) and n.target.id == name:
+            raise Untranslatable(f'{name} is mutated')
+
+
+def translate_keysloop():
+    file = FILES['keys']
+    tree = _tree(file)
+    _check_imports(tree, file, KEYS_IMPORTS, KEYS_MODULES + ['os'])
+    fns = _functions(tree)
+    for g in LOOP_GLOBALS:
+        _check_word_list(tree, g)
+    # the two callees read as their regenerated definitions of the 'keys' group: same parameter lists as declared there
+    e = fns.get('mnemonic_to_entropy')
+    if e is None or len(e.args.args) != 2 or len(e.args.defaults) != 1 or not (isinstance(e.args.defaults[0], ast.Constant) and e.args.defaults[0].value is None):
+        raise Untranslatable('mnemonic_to_entropy(words, password=None) has another parameter list')
+    if 'is_basic_seed' not in fns or len(fns['is_basic_seed'].args.args) != 1 or fns['is_basic_seed'].args.defaults:
+        raise Untranslatable('is_basic_seed(entropy) has another parameter list')
+    translate_keys()                                       # raises when the callees are outside the subset
+    prog = RProgram(fns, OPAQUE, LOOP_PRIMS, LOOP_STREAM, globals_=LOOP_GLOBALS, local_types=LOOP_LOCALS, params=LOOP_PARAMS,
+                    consts=_int_consts(tree), src=file)
+    for f, argt in LOOP_FUNCS:
+        prog.function(f, argt)
+    return list(prog.defs)
+
+
+GROUPS = {'ciphers': translate_ciphers, 'signature': translate_signature, 'keys': translate_keys, 'keysloop': translate_keysloop}
 
 
 def _groups(text):
@@ -489,7 +551,7 @@ def py_case(mods, case):
                          hx(ch.server_channel.ed25519_public.encode()), hx(ch.server_channel.x25519_public.encode()),
                          hx(ch.channel_shared), hx(ch.enc_key), hx(ch.dec_key), hx(ch.client_aes_key_id), hx(ch.server_aes_key_id),
                          _oh(_try(lambda: ch.encrypt(m))), _oh(_try(lambda: ch.decrypt(m, sm))), _oh(_try(lambda: ca.sign(m))),
-                         _oh(_try(lambda: ca.get_key_id()))])
+                         _oh(_try(lambda: ca.get_key_id())), _oh(_try(lambda: ca.get_aes_key_id()))])
     if kind == 'cipher':
         c = _try(lambda: C.create_aes_ctr_sipher_from_key_n_data(a[0], a[1]))
         return 'err' if c is None else f'{hx(c.k)}:{hx(c.iv)}'
@@ -510,13 +572,61 @@ def py_case(mods, case):
                          'err' if b is None else ('1' if b is True else '0' if b is False else 'other'),
                          _oh(_try(lambda: K.mnemonic_to_entropy(list(ws)))), _oh(_try(lambda: K.mnemonic_to_seed(list(ws), salt))),
                          pair(_try(lambda: K.mnemonic_to_private_key(list(ws)))), pair(_try(lambda: K.mnemonic_to_wallet_key(list(ws))))])
+    if kind in ('rn', 'mnew'):
+        stream = list(a[2])
+        fake = _StreamOs(stream)
+        saved = K.os, K.words
+        K.os = fake
+
+        def _stop(*_):
+            raise TimeoutError('the code under test did not return')
+        # a loop of the (possibly changed) source that neither draws nor ends would hang the check: 3 s per case, read as "raises / still
+        # running" (= `none` of the Lean definition, whose budget is used up)
+        try:
+            old_handler = signal.signal(signal.SIGALRM, _stop)
+            signal.setitimer(signal.ITIMER_REAL, 3.0)
+        except ValueError:                                # not the main thread: no guard
+            old_handler = None
+        try:
+            if kind == 'rn':
+                v = _try(lambda: K.get_secure_random_number(a[0], a[1]))
+                return 'err' if v is None else f'{v} {fake.draws}'
+            K.words = [str(i) for i in range(a[0])]
+            ws = _try(lambda: K.mnemonic_new(a[1]))
+            return 'err' if ws is None else f'{".".join(ws) or "-"} {fake.draws}'
+        finally:
+            if old_handler is not None:
+                signal.setitimer(signal.ITIMER_REAL, 0)
+                signal.signal(signal.SIGALRM, old_handler)
+            K.os, K.words = saved
+    if kind == 'iand':
+        return str(a[0] & a[1])
     raise ValueError(kind)
+
+
+class _StreamOs:
+    """stands in for the `os` module inside the private copy of keys.py: urandom answers from a FINITE recorded stream, `b''` after its
+    end (every loop of the code under test then raises IndexError or returns: the run terminates)"""
+
+    def __init__(self, stream):
+        self.stream, self.draws = stream, 0
+
+    def urandom(self, n):
+        if n < 0:
+            raise ValueError('negative argument not allowed')
+        r = self.stream[self.draws] if self.draws < len(self.stream) else b''
+        self.draws += 1
+        return r
 
 
 def case_word(case):
     kind, a = case[0], case[1:]
     if kind == 'mn':
         return f'mn {".".join(map(str, a[0])) or "-"} {hx(a[1])}'
+    if kind in ('rn', 'mnew'):
+        return f'{kind} {a[0]} {a[1]} {",".join(hx(x) for x in a[2]) or "_"}'
+    if kind == 'iand':
+        return f'iand {a[0]} {a[1]}'
     return ' '.join([kind] + [hx(x) for x in a])
 
 
@@ -534,12 +644,28 @@ def ob : Option Bool → String
 def opr : Option (Bytes × Bytes) → String
   | none => "err"
   | some (a, b) => dashHex a ++ ":" ++ dashHex b
+def parseStream (s : String) : Option (List Bytes) := if s == "_" then some [] else (s.splitOn ",").mapM hexArg
+def rndOf (st : List Bytes) : Nat → Bytes := fun k => st.getD k []
+def showNum : Option (Int × Nat) → String
+  | none => "err"
+  | some (v, k) => toString v ++ " " ++ toString k
+def showNew : Option (List Nat × Nat) → String
+  | none => "err"
+  | some (ws, k) => (if ws.isEmpty then "-" else ".".intercalate (ws.map toString)) ++ " " ++ toString k
+/-- the hand model of `mnemonic_new` in the reading "an empty PBKDF2 answer makes `seed[0]` raise" -/
+def modelNew (words : List Nat) (rnd : Nat → Bytes) (wc inner : Nat) : Nat → Nat → Option (List Nat × Nat)
+  | 0, _ => none
+  | n + 1, k => match drawWords words rnd inner wc k with
+    | none => none
+    | some (arr, k') =>
+      if toyP.pbkdf2 (mnemonicToEntropy toyP arr) saltVersion (max 1 (pbkdfIterations / 256)) == [] then none
+      else if !isBasicSeed toyP (mnemonicToEntropy toyP arr) then modelNew words rnd wc inner n k' else some (arr, k')
 def genChan (a b ida idb : Bytes) : Option (Client × Server × Channel) :=
   (Client_init toyP a).bind fun ca => (Client_init toyP b).bind fun cb => (Server_init toyP () 0 cb.edPub).bind fun s =>
     (AdnlChannel_init toyP ca s ida idb).map fun ch => (ca, s, ch)
-def showChan (ca : Client) (s : Server) (ch : Channel) (enc dec sig kid : Option Bytes) : String :=
+def showChan (ca : Client) (s : Server) (ch : Channel) (enc dec sig kid akid : Option Bytes) : String :=
   " ".intercalate [dashHex ca.edPriv, dashHex ca.edPub, dashHex ca.xPriv, dashHex ca.xPub, dashHex s.edPub, dashHex s.xPub,
-    dashHex ch.shared, dashHex ch.encKey, dashHex ch.decKey, dashHex ch.clientAesKeyId, dashHex ch.serverAesKeyId, oh enc, oh dec, oh sig, oh kid]
+    dashHex ch.shared, dashHex ch.encKey, dashHex ch.decKey, dashHex ch.clientAesKeyId, dashHex ch.serverAesKeyId, oh enc, oh dec, oh sig, oh kid, oh akid]
 /-- what the REGENERATED definitions compute on one case -/
 def runGen (ws : List String) : Option String :=
   match ws with
@@ -548,7 +674,7 @@ def runGen (ws : List String) : Option String :=
     match genChan a b ida idb with
     | none => pure "err"
     | some (ca, s, ch) => pure (showChan ca s ch (AdnlChannel_encrypt_obj toyP ch m) (AdnlChannel_decrypt_obj toyP ch m sm)
-        (Client_sign_obj toyP ca m) (Crypto_get_key_id_obj toyP ca))
+        (Client_sign_obj toyP ca m) (Crypto_get_key_id_obj toyP ca) (Crypto_get_aes_key_id_obj toyP ca))
   | ["cipher", k, d] => do
     let k ← hexArg k; let d ← hexArg d
     pure (opr (create_aes_ctr_sipher_from_key_n_data toyP k d))
@@ -563,6 +689,15 @@ def runGen (ws : List String) : Option String :=
     pure (" ".intercalate [ob (mnemonic_is_valid toyP w), ob ((mnemonic_to_entropy toyP w ()).bind (is_basic_seed toyP)),
       oh (mnemonic_to_entropy toyP w ()), oh (mnemonic_to_seed toyP w salt ()), opr (mnemonic_to_private_key toyP w ()),
       opr (mnemonic_to_wallet_key toyP w ())])
+  | ["rn", lo, hi, st] => do
+    let lo ← lo.toInt?; let hi ← hi.toInt?; let st ← parseStream st
+    pure (showNum (get_secure_random_number toyP Py.intFloat (rndOf st) (st.length + 2) lo hi 0))
+  | ["mnew", n, wc, st] => do
+    let n ← n.toNat?; let wc ← wc.toNat?; let st ← parseStream st
+    pure (showNew (mnemonic_new toyP Py.intFloat (rndOf st) (st.length + 2) wc () (List.range n) 0))
+  | ["iand", a, b] => do
+    let a ← a.toInt?; let b ← b.toInt?
+    pure (toString (Py.intAnd a b))
   | _ => none
 /-- what the HAND MODEL (Model/Adnl.lean) computes, in the reading of the `*_eq` theorems of Proofs/SrcAdnl.lean -/
 def runModel (ws : List String) : Option String :=
@@ -572,7 +707,7 @@ def runModel (ws : List String) : Option String :=
     let ca := Client.new toyP a
     let s := Server.new toyP (Client.new toyP b).edPub
     let ch := Channel.new toyP ca s ida idb
-    pure (showChan ca s ch (ch.encrypt toyP m) (ch.decrypt toyP m sm) (some (getSignature toyP ca.edPriv m)) (some (keyId toyP ca.edPub)))
+    pure (showChan ca s ch (ch.encrypt toyP m) (ch.decrypt toyP m sm) (some (getSignature toyP ca.edPriv m)) (some (keyId toyP ca.edPub)) (some (keyAesId toyP ca.edPriv)))
   | ["cipher", k, d] => do
     let k ← hexArg k; let d ← hexArg d
     pure (opr (cipherParams k d))
@@ -589,6 +724,14 @@ def runModel (ws : List String) : Option String :=
       ob (if empty then none else some (isBasicSeed toyP (mnemonicToEntropy toyP w))),
       oh (some (mnemonicToEntropy toyP w)), oh (some (mnemonicToSeed toyP w salt)), opr (some (mnemonicToPrivateKey toyP w)),
       opr (some (mnemonicToWalletKey toyP w))])
+  | ["rn", lo, hi, st] => do
+    let lo ← lo.toInt?; let hi ← hi.toInt?; let st ← parseStream st
+    if lo < 0 ∨ hi < 0 then runGen ws          -- the hand model is stated for non-negative bounds
+    else pure (showNum ((secureRandomNumber (rndOf st) lo.toNat hi.toNat (st.length + 2) 0).map fun (v, k) => ((v : Int), k)))
+  | ["mnew", n, wc, st] => do
+    let n ← n.toNat?; let wc ← wc.toNat?; let st ← parseStream st
+    pure (showNew (modelNew (List.range n) (rndOf st) wc (st.length + 2) (st.length + 2) 0))
+  | ["iand", _, _] => runGen ws
   | _ => none
 def run (mode : String) (line : String) : String :=
   let ws := line.splitOn " "
@@ -626,7 +769,7 @@ def lean_eval(cases, mode):
 
 CHAN_OUT = ['Client.ed25519_private', 'Client.ed25519_public', 'Client.x25519_private', 'Client.x25519_public', 'Server.ed25519_public',
             'Server.x25519_public', 'channel_shared', 'enc_key', 'dec_key', 'client_aes_key_id', 'server_aes_key_id', 'encrypt', 'decrypt',
-            'Client.sign', 'get_key_id']
+            'Client.sign', 'get_key_id', 'get_aes_key_id']
 MN_OUT = ['mnemonic_is_valid', 'is_basic_seed', 'mnemonic_to_entropy', 'mnemonic_to_seed', 'mnemonic_to_private_key', 'mnemonic_to_wallet_key']
 
 
@@ -658,6 +801,38 @@ def grid():
     out.append(('verify', b'', b'', b''))
     for n in [0, 1, 12, 23, 25, 48] * 4 + [24] * 40:
         out.append(('mn', tuple(rng.randrange(0, 2048) for _ in range(n)), rng.choice([b'TON default seed', b'', rng.randbytes(5)])))
+    out += loop_grid(rng)
+    return out
+
+
+def loop_grid(rng):
+    """the two `while True` functions on FINITE recorded streams: ranges 1, 2, 3, around 2^8 / 2^16 / 2^24, up to 2^47 (below that CPython's
+    float arithmetic is exact), empty / negative / too large ranges, negative lower bounds; first draws at the rejection boundary (= range,
+    range - 1, the mask, 0), short answers (IndexError), an exhausted stream; generator runs over small word lists (range 5: draws 5, 6, 7
+    are rejected) with 1 / 2 / 3 / 24 words per candidate (0 words: the Python loop never draws and never ends); `&` on ints of both signs"""
+    out = []
+    for lo, hi in [(0, 1), (0, 2), (0, 3), (5, 9), (-7, -2), (-3, 4), (0, 255), (0, 256), (0, 257), (0, 2048), (7, 7 + 2048), (0, 65535), (0, 65536),
+                   (0, 65537), (0, 2 ** 24 - 1), (0, 2 ** 24 + 1), (0, 2 ** 40), (3, 3 + 2 ** 33 + 1), (0, 2 ** 47), (10, 10), (10, 3), (0, 2 ** 54), (0, 2 ** 60)]:
+        rg = hi - lo
+        bits = max(rg - 1, 0).bit_length() if rg >= 1 else 0
+        nb = (bits + 7) // 8
+        firsts = [None]
+        if 1 <= rg < 2 ** 48 and nb:
+            firsts += [v.to_bytes(nb, 'big') for v in (rg, rg - 1, (1 << bits) - 1, 0) if 0 <= v < 256 ** nb]
+        for first in firsts:
+            stream = [rng.randbytes(max(bits, nb)) for _ in range(6)]
+            if first is not None:
+                stream[0] = first + stream[0][len(first):]
+            out.append(('rn', lo, hi, tuple(stream)))
+        out.append(('rn', lo, hi, ()))
+        out.append(('rn', lo, hi, (rng.randbytes(max(nb - 1, 0)),) * 2))
+    for nwords, wc in [(5, 3), (5, 3), (5, 3), (5, 2), (6, 3), (3, 1), (2, 3), (0, 3), (7, 24), (7, 24), (300, 2), (2048, 2), (5, 3)]:
+        bits = max(nwords - 1, 0).bit_length()
+        out.append(('mnew', nwords, wc, tuple(rng.randbytes(max(bits, 1)) for _ in range(rng.choice([40, 90, 200])))))
+    out.append(('mnew', 5, 3, ()))
+    for a2 in (0, 1, 5, 255, 2 ** 53 - 1, -1, -2, -256, -(2 ** 40) - 3):
+        for b2 in (0, 7, 255, 2 ** 53 - 1, -1, -8, -255):
+            out.append(('iand', a2, b2))
     return out
 
 
@@ -720,7 +895,7 @@ def validate():
         if pv != g:
             gs, ps = g.split(' '), pv.split(' ')
             k = [i for i in range(max(len(ps), len(gs))) if i >= len(gs) or i >= len(ps) or gs[i] != ps[i]][0]
-            names = CHAN_OUT if case[0] == 'chan' else MN_OUT if case[0] == 'mn' else [case[0]]
+            names = CHAN_OUT if case[0] == 'chan' else MN_OUT if case[0] == 'mn' else [case[0]] * 3
             return (f'validation: on `{case_word(case)[:160]}` component {names[k] if k < len(names) else k}: Lean computes '
                     f'"{(gs + ["?"] * 20)[k][:80]}", CPython computes "{(ps + ["?"] * 20)[k][:80]}"')
     return None
@@ -738,7 +913,8 @@ def regenerate():
     for f in FILES.values():
         h.update(open(os.path.join(REPO, f), 'rb').read())
     for f in (__file__, pyprims.__file__, pyobj.__file__, pybytes.__file__, pybytes.pyarith.__file__, os.path.join(LEAN, 'TonVerif/PyCrypto.lean'),
-              os.path.join(LEAN, 'TonVerif/PyBytes.lean'), os.path.join(LEAN, 'TonVerif/Model/Adnl.lean')):
+              os.path.join(LEAN, 'TonVerif/PyBytes.lean'), os.path.join(LEAN, 'TonVerif/Model/Adnl.lean'), pyrand.__file__,
+              os.path.join(LEAN, 'TonVerif/PyRand.lean')):
         h.update(open(f, 'rb').read())
     stamp = os.path.join(LEAN, '.lake', 'srcval_AdnlSrc.stamp')
     try:
@@ -778,7 +954,7 @@ def diff_points(ctx):
     found = []
     for case, g in zip(cases, got):
         if g.startswith('DIFF'):
-            names = CHAN_OUT if case[0] == 'chan' else MN_OUT if case[0] == 'mn' else [case[0]]
+            names = CHAN_OUT if case[0] == 'chan' else MN_OUT if case[0] == 'mn' else [case[0]] * 3
             idx = [int(i) for i in g[5:].split(',') if i]
             found.append((case, [names[i] if i < len(names) else str(i) for i in idx]))
     ctx.notes.append(f'source-diff search: regenerated ADNL glue vs hand model on {len(cases)} boundary cases: '
